@@ -64,6 +64,15 @@ def sig_programs():
                 [('all', [Obj('P', b=1, bs='top', qq=Obj('Q', b=2, bs='in', q=3), qa=[Obj('Q', b=4, bs='e0', q=5), Obj('Q', b=6, bs=None, q=None)],
                               qs=[Obj('Q', b=7, bs=None, q=8)]), Obj('Q', b=9, bs='arg', q=10)]),
                  ('inherited-only', [Obj('P', b=None, bs=None, qq=Obj('Q', b=2, bs=None, q=None), qa=[Obj('Q', b=4, bs=None, q=None)], qs=None), Obj('Q', b=9, bs=None, q=None)])]))
+    # two objects of the same class reached through different members / parameters, both spelling the same members
+    K = {'n': 'K', 'fields': [['k', U]]}
+    T = {'n': 'T', 'fields': [['i', I], ['tags', ['a', ['c', 'K', {}], {}]], ['ks', ['c', 'K', {'max_occurs': 'unbounded'}]]]}
+    PT = {'n': 'P', 'fields': [['x', ['c', 'T', {}]], ['y', ['c', 'T', {}]]]}
+    mt = {'n': 'm', 'args': [['start', ['c', 'T', {}]], ['end', ['c', 'T', {}]], ['p', ['c', 'P', {}]]], 'ret': I}
+    out.append(('twins', {'tns': TNS, 'classes': [K, T, PT], 'services': [{'n': 'S', 'methods': [mt]}]},
+                [('scalars', [Obj('T', i=1, tags=None, ks=None), Obj('T', i=2, tags=None, ks=None), Obj('P', x=Obj('T', i=3, tags=None, ks=None), y=Obj('T', i=4, tags=None, ks=None))]),
+                 ('arrays', [Obj('T', i=None, tags=[Obj('K', k='a')], ks=None), Obj('T', i=None, tags=[Obj('K', k='b'), Obj('K', k='c')], ks=None), None]),
+                 ('nested-arrays', [None, None, Obj('P', x=Obj('T', i=None, tags=[Obj('K', k='a')], ks=[Obj('K', k='s')]), y=Obj('T', i=None, tags=[Obj('K', k='b')], ks=[Obj('K', k='t')]))])]))
     # heterogeneous object arrays: every pattern of which members each of 3 elements spells (an element spelling a
     # member its predecessors left out changes the sorted key order - the strict_arrays index bookkeeping depends on it)
     QH = {'n': 'Q', 'fields': [['q', I], ['s', U]]}
@@ -324,6 +333,8 @@ def run_shard(shard):
                 cls = b.classes[at[1]]
                 for label, args in cases:
                     v = args[0]
+                    if v is None:
+                        continue
                     ctx = {'flat': True, 'name': name, 'label': label, 'delim': delim}
                     res['evaluations'] += 1
                     try:
